@@ -276,6 +276,7 @@ func init() {
 			complete := true
 			eval := func(c c16Case, size int) {
 				r.Evals.Add(1)
+				r.Journal(c)
 				r.Transitions.Add(1)
 				ok, sig, detail := c16Eval(c)
 				if c.N >= 1 {
